@@ -1,5 +1,6 @@
 import EmmyVerif.Model.Text
 import EmmyVerif.Model.Diag
+import EmmyVerif.Model.DiagConfig
 import EmmyVerif.Drv.Util
 /-! Driver ops of the `Diag` family (protocol family `diag`).
 
@@ -10,6 +11,10 @@ import EmmyVerif.Drv.Util
     `!` (empty list) or `,`-separated code numbers / `?` (unknown name)
   * diags: `-` or `;`-separated `code_s_e`
   * code lists: `-` or `,`-separated numbers
+* `diag.config <codes> <wsEnabled> <wsDisabled> <has ---@meta 0|1> <fileEnabled> <fileDisabled> <level> <overrides> <enable 0|1> <kind m|l|s|o>`
+  → `ok none` (the file reports nothing at all) or `ok <per code: 0 = not enabled, 1..4 = severity>`;
+  overrides: `-` or `,`-separated `code:severity`; defaults come from the readable model (`defaultOn`, `defaultSeverity`)
+* `diag.global <declared 0|1> <inGlobals 0|1> <matchesRegex 0|1>` → `ok 0|1` (reported as undefined global)
 -/
 namespace Drv.Diag
 open _root_.Diag
@@ -73,6 +78,28 @@ def handle (op : String) (args : List String) : Option String :=
     let rep := diags.map fun (c, r) => bit (reported (fun c => defOn.contains c) cfg st (isMeta == "1") c r)
     let sup := diags.map fun (c, r) => bit (suppressed st c r)
     pure s!"ok r={"".intercalate rep} s={"".intercalate sup} fd={Drv.joinWith "," (st.fileDisabled.map toString)} fe={Drv.joinWith "," (st.fileEnabled.map toString)} act={st.actions.length}"
+  | "config", [codes, wsE, wsD, isMeta, fE, fD, level, ovs, enable, kind] => do
+    let codes ← parseNatList codes
+    let wsE ← parseNatList wsE
+    let wsD ← parseNatList wsD
+    let fE ← parseNatList fE
+    let fD ← parseNatList fD
+    let level ← level.toNat?
+    let ovs ← (splitNonEmpty ovs ",").mapM fun x =>
+      match x.splitOn ":" with
+      | [c, s] => do pure ((← c.toNat?), (← s.toNat?))
+      | _ => none
+    let kind ← match kind with
+      | "m" => some WorkspaceKind.main | "l" => some .library | "s" => some .std | "o" => some .outside
+      | _ => none
+    let cfg : Config := { wsEnabled := wsE, wsDisabled := wsD }
+    let st : FileDiag := { fileEnabled := fE, fileDisabled := fD }
+    let per := codes.map fun c =>
+      if enabledByCode (defaultOn level) cfg st (effectiveMeta (isMeta == "1") kind) c then toString (severity ovs c) else "0"
+    pure (match fileReports (enable == "1") kind per with
+      | none => "ok none"
+      | some per => s!"ok {Drv.joinWith "," per}")
+  | "global", [d, g, r] => pure s!"ok {bit (globalReported (d == "1") (g == "1") (r == "1"))}"
   | "covers", [a, b, s, e] => do
     let a ← a.toNat?; let b ← b.toNat?; let s ← s.toNat?; let e ← e.toNat?
     pure s!"ok {bit (covers (a, b) (s, e))} {bit (touches (a, b) (s, e))}"
